@@ -151,6 +151,8 @@ pub struct World<'a> {
     clock_fault: Option<&'static str>,
     /// Counts external changes of the user's auto-correct list.
     ac_epoch: u64,
+    /// Files moved out of the user-data directory (bytes, modification time): store, list.
+    aside: [Option<(Vec<u8>, u64)>; 2],
 }
 
 fn site_of(msg: &str) -> String {
@@ -220,6 +222,7 @@ impl<'a> World<'a> {
             cur: 0,
             clock_fault: None,
             ac_epoch: 0,
+            aside: [None, None],
         }
     }
 
@@ -1665,12 +1668,57 @@ impl<'a> World<'a> {
     }
 
     fn do_set_file(&mut self, file: FileId, st: &FileSt, mt: Mt) {
+        // moved aside / moved back: bytes and modification time travel with the file
+        if matches!(st, FileSt::MoveAside | FileSt::MoveBack) {
+            self.drop_fault_twins();
+            let ix = if file == FileId::Store { 0 } else { 1 };
+            let present = self.disk.get(file);
+            match st {
+                FileSt::MoveAside => {
+                    if let (Some(bytes), Some(t)) = (present, self.disk.mtime(file)) {
+                        self.aside[ix] = Some((bytes, t));
+                        self.disk.put(file, None, None);
+                        self.stats.bump(&format!("fault.file_moved_aside.{:?}", file));
+                    } else {
+                        return;
+                    }
+                }
+                _ => {
+                    if present.is_some() {
+                        return;
+                    }
+                    match self.aside[ix].take() {
+                        Some((bytes, t)) => {
+                            self.disk.put(file, Some(bytes), Some(t));
+                            self.stats.bump(&format!("fault.file_moved_back.{:?}", file));
+                        }
+                        None => return,
+                    }
+                }
+            }
+            if file == FileId::Autocorrect {
+                self.ac_epoch += 1;
+                if self.scenario == Scenario::Reconfigure {
+                    self.clock_fault = Some("autocorrect_deleted");
+                }
+            }
+            if file == FileId::Store {
+                self.durable = None;
+                self.durable_prev = None;
+                self.refresh_store_fp();
+            }
+            self.note(|| format!("{:?} {}", file, if matches!(st, FileSt::MoveAside) { "moved aside" } else { "moved back (same bytes, same modification time)" }));
+            self.digest = fnv_add(self.digest, &[b'm', ix as u8, matches!(st, FileSt::MoveAside) as u8]);
+            return;
+        }
+
         self.drop_fault_twins();
         self.disk.advance(1);
         let cur = self.disk.get(file);
         let prev_mtime = self.disk.mtime(file);
         let bytes: Option<Vec<u8>> = match st {
             FileSt::Absent => None,
+            FileSt::MoveAside | FileSt::MoveBack => unreachable!("handled above"),
             FileSt::Text(s) => Some(s.as_bytes().to_vec()),
             FileSt::Hex(s) => Some(hex_decode(s)),
             FileSt::Truncate(k) => cur.as_ref().map(|b| {
@@ -1693,6 +1741,7 @@ impl<'a> World<'a> {
         };
         let kind = match st {
             FileSt::Absent => "absent",
+            FileSt::MoveAside | FileSt::MoveBack => unreachable!("handled above"),
             FileSt::Text(s) if s.is_empty() => "empty",
             FileSt::Text(_) | FileSt::Hex(_) => "document",
             FileSt::Truncate(_) => "truncate",
@@ -1961,6 +2010,11 @@ impl<'a> World<'a> {
         // premise: every compared context has loaded the current version of the user's
         // auto-correct list (a sub-history without the re-load is not comparable)
         let epoch = self.ac_epoch;
+        if self.aside[1].is_some() {
+            // the list is still away: a context that loaded it earlier legitimately keeps it
+            // (a deleted file is not an edit, see C11); only "away and back" is judged
+            return Ok(());
+        }
         let reference = match &self.slots[0] {
             Some(s) if s.host.alive() && s.fe.typed_ok && !s.fe.typed.is_empty() && s.ac_seen == epoch => s,
             _ => return Ok(()),
